@@ -607,8 +607,11 @@ def bpe_runs(ctx, prefixes):
     q = ctx.quick()
     # (all tables <= 3 entries over 2 byte slots) x (all texts up to length 4 over {ws, slot 1, slot 2}); a longer text bound
     # multiplies the judged encodings (3368 configurations x 364 texts at length 5) beyond a useful run time
-    cases, n = vlib.tlc_generate(ctx, "Gen_Tok", tok_cfg(4, 2, 3, 3, "{0}"), "gen-bpe.ndjson", env={"FAMILY": "bpe"})
+    cases, n = vlib.tlc_generate(ctx, "Gen_Tok", tok_cfg(3 if q else 4, 2, 3, 3, "{0}"), "gen-bpe.ndjson", env={"FAMILY": "bpe"})
     tok_judge(ctx, cases, "A-ab", prefixes)
+    # tables made of substrings of one word: consistent merge histories and competing ones (4 entries, 5 bytes)
+    sub, n = vlib.tlc_generate(ctx, "Gen_Tok", tok_cfg(4, 2, 4 if q else 5, 3, "{0}"), "gen-bpesub.ndjson", env={"FAMILY": "bpesub"})
+    tok_judge(ctx, sub, "A-sub", prefixes)
     if not q:
         cases3, n = vlib.tlc_generate(ctx, "Gen_Tok", tok_cfg(3, 3, 2, 3, "{0}"), "gen-bpe3.ndjson", env={"FAMILY": "bpe"})
         tok_judge(ctx, cases3, "A-umlaut", prefixes, extra_case={"balpha": "umlaut"})
@@ -620,7 +623,8 @@ def bpe_runs(ctx, prefixes):
 
 BPE_RULE = ("MC: the merge machine (one MergeStep per transition) for all well-formed tables <=3 entries over 2 byte symbols x all "
             "words up to 5/6 bytes: lossless in every state, terminates, fixed point = MergeFix; A: the same tables x all texts up "
-            "to length 4/5 over {ws, a, b} (thorough: 3 byte slots C3 A4 61, valid UTF-8 only, so merges cross character boundaries) "
+            "to length 3/4 over {ws, a, b}, and for 5 words of 4-5 bytes every well-formed table of up to 4/5 entries made of substrings "
+            "of the word (consistent merge histories and competing ones) applied to w, ' ' w and ww (thorough: 3 byte slots C3 A4 61, valid UTF-8 only, so merges cross character boundaries) "
             "x max_vocab_size truncations x prefix/suffix; B: random well-formed tables of depth >=2 with up to 40 competing entries "
             "x random texts with whitespace structure. non-trivial = a text on which at least two merges apply")
 
